@@ -51,7 +51,8 @@ RULE = (
     "connections, k=1 for three connections and for the per-write 'fine' transport; thorough adds k=2 for two "
     "three-connection configurations) of the real _serve_socket_threaded accept loop + 2-3 client tasks + the handler "
     "threads it starts; each client runs a 1-2 call script from {unary+log, unary error, producer, producer+header, "
-    "exchange, exchange error, producer cancelled} with per-connection parameters; max_connections in {None,1,2}; "
+    "exchange, exchange error, producer cancelled} with per-connection parameters, or dies in the middle of a request (the "
+    "handler's serve() then ends with an exception); max_connections in {None,1,2}; "
     "points at connect/accept, semaphore/lock/thread operations, every line of _handle and every message burst (or "
     "every write in the 'fine' configurations); non-trivial = schedule with >=1 choice point"
 )
@@ -124,6 +125,7 @@ def configs(ctx: Ctx) -> list[dict[str, Any]]:
         add(["e", "p", "u"], 1, 1)
         add(["e", "e", "e"], None, 1)
         add(["u", "u"], 1, 1, True)
+        add(["k", "u", "u"], 1, 1)
         out.sort(key=lambda c: -_weight(c))
         return out
     pairs = [["u", "u"], ["u", "r"], ["p", "p"], ["e", "e"], ["p", "e"], ["e", "u"], ["h", "x"], ["c", "e"], ["c", "c"],
@@ -138,6 +140,10 @@ def configs(ctx: Ctx) -> list[dict[str, Any]]:
             add(cl, maxc, 1)
     add(["u", "u", "u"], 2, 2)
     add(["e", "e", "e"], 2, 2)
+    for maxc in (1, 2):
+        add(["k", "u", "u"], maxc, 1)
+        add(["k", "e", "p"], maxc, 1)
+    add(["k", "u"], 1, 2)
     for maxc in (None, 1):
         add(["u", "u"], maxc, 1, True)
         add(["e", "e"], maxc, 1, True)
@@ -145,7 +151,7 @@ def configs(ctx: Ctx) -> list[dict[str, Any]]:
     return out
 
 
-_W = {"u": 2, "r": 2, "p": 5, "h": 6, "e": 5, "c": 5, "x": 5}
+_W = {"u": 2, "r": 2, "p": 5, "h": 6, "e": 5, "c": 5, "x": 5, "k": 1}
 
 
 def _weight(cfg: dict[str, Any]) -> int:
@@ -155,7 +161,7 @@ def _weight(cfg: dict[str, Any]) -> int:
 
 
 def calls_of(cfg: dict[str, Any]) -> list[list[Call]]:
-    return [[script(k, i) for k in spec] for i, spec in enumerate(cfg["clients"])]
+    return [[script(k, i) for k in spec if k != "k"] for i, spec in enumerate(cfg["clients"])]
 
 
 class Rig:
@@ -222,6 +228,20 @@ class Rig:
         def client(i: int) -> None:
             ct, st = N.make_pair(cfg["fine"])
             lst.connect(N.FakeConn(i, st))
+            if "k" in cfg["clients"][i]:
+                # a client that dies in the middle of a request: the handler's serve() ends with an exception (pyarrow
+                # raises a plain OSError for the short message body), which must not disturb the other connections
+                from vf.kit import raw as _raw
+
+                data = _raw.frame_request("unary", {"script": ["{}"], "x": [i]})
+                ct.writer.write(data[: len(data) - 24])
+                ct.writer.flush()
+                ct.close()
+                S.point(f"closed:{i}")
+                w["done"] += 1
+                if w["done"] == w["n"]:
+                    lst.close()
+                return
             tr_all = w["traces"][i]
             cur: dict[str, Any] = {"tr": None}
             proxy = self.RpcConnection(prog.ScriptSvc, ct, lambda m: cur["tr"].append(prog.log_event(m))).__enter__()
